@@ -24,7 +24,7 @@ def _bulk(what, s0, s1, s2, r0, r1, r2, r3, nreq, in_max, chunk_max, view):
             if r not in distinct:
                 distinct.append(r)
         if what == 'reach':
-            return not (len(distinct) > chunk_max and nreq >= 3)
+            return not (len(distinct) > chunk_max and nreq >= 2 and len(distinct) >= 2)
         if view == 0:
             return c.has_objects(req) == [r != 3 for r in picks]
         if view == 1:
